@@ -19,6 +19,7 @@ RULE = ("event histories (4..18 events) over {connect request (interface.connect
         "connecting / connected state (no network) must answer disconnect / close / connect-event / send with the same callbacks as the dispatcher double. thorough: all histories up to length 6. distinct = distinct history.")
 RULE += (" stream 'realdisp' also asks for the disconnect from an application thread on an idle connection (both real dispatchers): the peer must see the end and DISCONNECTED must be announced.")
 RULE += (' Event pingTickAnswered: the answer to a keep-alive ping reaches the stack while the pinging thread is still inside its write.')
+RULE += (" stream 'hsfail': the real noise layer and handshake worker, the peer's answer to the client hello unreadable (with / without a remembered server key, with / without routing information): one handshake message per connect, one failure at the application, the connection closed and announced down once.")
 ASSUMPTIONS = ["dispatcher double implements the asyncore dispatcher's contract (connect -> later handle_connect | handle_error; disconnect -> synchronous "
                "handle_close -> onDisconnected; sendData dropped unless connected); real sockets / DNS / TLS are not exhibited",
                "the keep-alive thread runs on a virtual clock (one real loop iteration per tick); the noise and axolotl layers' reset on DISCONNECTED is C04's / C14's subject"]
@@ -186,6 +187,12 @@ def cases(chk):
     for downs in (["peer-close"], ["disconnect-request"], ["peer-close", "disconnect-request"], ["disconnect-request", "peer-close", "peer-close"]):
         for edge in (False, True):
             yield "relogin", {"downs": downs, "edge": edge}
+    # a login that fails INSIDE the handshake (the server's answer to the client hello cannot be read), with and without a remembered server key:
+    # one login attempt per connect, the failure delivered to the application, the connection closed and announced down once
+    for remembered in (False, True):
+        for edge in (False, True):
+            for glen in (1, 40, 300):
+                yield "hsfail", {"remembered": remembered, "edge": edge, "garbage": glen}
     errs = ["streamError:conflict", "streamError:ack", "streamError:xmlNotWellFormed", "streamError:unknown"]
     for _ in range(chk.scale(350, 6000)):
         # guided walk: a coarse guess of the connection state steers the choice so that histories get deep
@@ -340,6 +347,97 @@ def run_relogin(chk, case):
     return fails
 
 
+def run_hsfail(chk, case):
+    """connect, the real noise layer writes its login, the peer's answer to the client hello is unreadable: exactly one client hello was written
+    on that connection, the application gets one failure, the connection is closed and announced down once — with and without a remembered server key"""
+    import os
+    import time
+    import uuid
+    from consonance.structs.keypair import KeyPair
+    from consonance.structs.publickey import PublicKey
+    from yowsup.config.v1.config import Config
+    from yowsup.layers import YowLayer, YowLayerEvent, YowParallelLayer
+    from yowsup.layers.auth import YowAuthenticationProtocolLayer
+    from yowsup.layers.coder import YowCoderLayer
+    from yowsup.layers.network import YowNetworkLayer
+    from yowsup.layers.noise.layer import YowNoiseLayer
+    from yowsup.layers.noise.layer_noise_segments import YowNoiseSegmentsLayer
+    from yowsup.profile.profile import YowProfile
+    from yowsup.stacks import YowStack
+    import yowsup.layers.network.layer as nl
+    import random
+    fails = []
+    written = {}
+
+    class ByteDispatcher(FakeDispatcher):
+        def sendData(self, data):
+            if self._connected:
+                written.setdefault(self.idx, bytearray()).extend(bytes(data))
+    saved = nl.AsyncoreConnectionDispatcher
+    nl.AsyncoreConnectionDispatcher = ByteDispatcher
+    FakeDispatcher.created = []
+    FakeDispatcher.LOG = []
+    try:
+        got, downs = [], []
+
+        class Top(YowLayer):
+            def receive(self, d):
+                got.append(d)
+
+            def send(self, d):
+                self.toLower(d)
+
+            def onEvent(self, ev):
+                if ev.getName() == YowNetworkLayer.EVENT_STATE_DISCONNECTED:
+                    downs.append(ev)
+        stack = YowStack((YowNetworkLayer, YowNoiseSegmentsLayer, YowNoiseLayer, YowCoderLayer,
+                          YowParallelLayer((YowAuthenticationProtocolLayer,)), Top()), reversed=False)
+        cfg = Config(phone="4915166600002", cc=49, client_static_keypair=KeyPair.generate(), pushname="hsfail",
+                     edge_routing_info=b"\x08\x02\x08\x05" if case["edge"] else None,
+                     server_static_public=PublicKey(KeyPair.generate().public.data) if case["remembered"] else None)
+        stack.setProfile(YowProfile("c16-hsfail-" + uuid.uuid4().hex, cfg))
+        stack.setProp(YowNetworkLayer.PROP_ENDPOINT, ("e1.whatsapp.net", 443))
+        stack.broadcastEvent(YowLayerEvent(YowNetworkLayer.EVENT_STATE_CONNECT))
+        disp = FakeDispatcher.created[-1]
+        disp.handle_connect()
+        prefix = (b"ED\x00\x01" + b"\x00\x00\x04" + b"\x08\x02\x08\x05" if case["edge"] else b"") + b"WA\x04\x00"
+        deadline = time.time() + 2.0
+        while time.time() < deadline and len(written.get(disp.idx, b"")) < len(prefix) + 3 + 30:
+            time.sleep(0.005)
+        rr = random.Random(case["garbage"])
+        junk = bytes(rr.randrange(256) for _ in range(case["garbage"]))
+        disp.connectionCallbacks.onRecvData(len(junk).to_bytes(3, "big") + junk)
+        deadline = time.time() + 3.0
+        while time.time() < deadline and (disp.open or not got):
+            _drain_detached(stack)
+            time.sleep(0.005)
+        time.sleep(0.05)
+        _drain_detached(stack)
+        chk.hit("hsfail:remembered=%d" % case["remembered"])
+        what = "connect, login written, the answer to the client hello is %d unreadable byte(s) (%s server key remembered%s)" \
+            % (case["garbage"], "a" if case["remembered"] else "no", ", routing information configured" if case["edge"] else "")
+        data = bytes(written.get(disp.idx, b""))
+        segs, pos = [], len(prefix)
+        while data.startswith(prefix) and pos + 3 <= len(data):
+            n = int.from_bytes(data[pos:pos + 3], "big")
+            segs.append(n)
+            pos += 3 + n
+        if len(segs) != 1:
+            fails.append(oracle("C16:login-attempts-per-connect", "%s: %d handshake message(s) were written on this one connection (sizes %s): one connect is one login attempt"
+                                % (what, len(segs), segs[:5])))
+        names = [type(x).__name__ for x in got]
+        if names.count("FailureProtocolEntity") != 1:
+            fails.append(oracle("C16:login-failure-not-delivered", "%s: the application received %s — the failed login is delivered as one failure" % (what, names or "nothing")))
+        if disp.open or len(downs) != 1:
+            fails.append(oracle("C16:not-closed-after-login-failure", "%s: the connection is %s and was announced down %d time(s)" % (what, "still open" if disp.open else "closed", len(downs))))
+        if disp.open:
+            disp.handle_close()
+            _drain_detached(stack)
+    finally:
+        nl.AsyncoreConnectionDispatcher = saved
+    return fails
+
+
 def _drain_detached(stack):
     from yowsup.stacks import YowStack
     q = YowStack._YowStack__detachedQueue
@@ -352,7 +450,7 @@ def _drain_detached(stack):
 
 
 def nontrivial(stream, case):
-    if stream in ("dispcontract", "reframe"):
+    if stream in ("dispcontract", "reframe", "hsfail"):
         return (stream, repr(case))
     if stream == "realdisp":
         return (stream, repr(case))
@@ -770,6 +868,8 @@ def run_case(chk, stream, case):
         return run_reboot(chk, case)
     if stream == "relogin":
         return run_relogin(chk, case)
+    if stream == "hsfail":
+        return run_hsfail(chk, case)
     from yowsup.layers import YowLayerEvent
     from yowsup.layers.network import YowNetworkLayer
     fails = []
@@ -1054,7 +1154,7 @@ def check_trace(case, executed, trace):
 
 
 def shrink(stream, case):
-    if stream in ("reboot", "realdisp", "dispcontract", "reframe"):
+    if stream in ("reboot", "realdisp", "dispcontract", "reframe", "hsfail"):
         return
     if stream == "relogin":
         for i in range(len(case["downs"])):
